@@ -53,7 +53,9 @@ def rule_key(ctx):
         n += 1
 
         def run(it: Interp):
-            drivers = build_drivers(it, p)
+            # a second instance of the addressed driver's class, created later, runs under another name: whatever the class
+            # or its definitions share between instances must not make a write land on the sibling
+            drivers = build_drivers(it, p, names=(("DevA", "DEVA"), ("DevB", "DEVB"), ("DevA", "DEVA2")))
             it.drivers = drivers
             kids = [Obj(parts[mk], {"name": Const(c), "value": Obj(None, label=f"<text:{i}>"), "__closed__": Const(True)}, label=f"child{i}:{c}") for i, c in enumerate(children)]
             it.kids = kids
@@ -84,7 +86,7 @@ def rule_key(ctx):
             else:
                 expect = []
             if applied != expect:
-                ctx.violated("C06.KEY", f.short, f"[{row}] applies {applied}, expected {expect} (exactly the named elements of the addressed property of the addressed driver, only when the kinds match; a second driver DEVB with properties V1/W9 exists)", fi=f, text=f"applied:{'known' if target in kind_of else 'unknown'}:{'match' if kind_of.get(target) == mk else 'mismatch'}:{len(applied)}:{len(expect)}", witness=row)
+                ctx.violated("C06.KEY", f.short, f"[{row}] applies {applied}, expected {expect} (exactly the named elements of the addressed property of the addressed driver, only when the kinds match; a second driver DEVB with properties V1/W9 and a second instance DEVA2 of the same class exist)", fi=f, text=f"applied:{'known' if target in kind_of else 'unknown'}:{'match' if kind_of.get(target) == mk else 'mismatch'}:{len(applied)}:{len(expect)}", witness=row)
                 bad = True
             if stores:
                 ctx.violated("C06.KEY", f.short, f"[{row}] stores {[repr(s) for s in stores][:2]} during dispatch", fi=f, text="dispatch-stores", witness=row)
